@@ -14,7 +14,7 @@ RULE = ("(a) every subcircuit object returned by the emulator for basis-state pr
         "counting. non-trivial = n >= 2 (bit order observable); distinct = (mode, n, program or outcome list hash)")
 ASSUMPTIONS = ["bits(k, n): character i of the string = bit i of the integer (qubit 0 leftmost and least significant)"]
 TIERS = {"quick": {"shards": 8, "budget_s": 40}, "thorough": {"shards": 16, "budget_s": 300}}
-REQUIRE = {"mode:job": 50, "mode:emulator": 100, "mode:outputs": 50, "mode:direct": 50, "non-palindromic-certain-outcomes": 50,
+REQUIRE = {"mode:frequencies": 50, "mode:job": 50, "mode:emulator": 100, "mode:outputs": 50, "mode:direct": 50, "non-palindromic-certain-outcomes": 50,
            "outcomes-as-int": 500, "outcomes-as-str": 500, "views-checked": 300}
 
 
@@ -39,6 +39,15 @@ def check_views(tag, sc, n, fails, probabilistic):
         # deprecated aliases must describe the same distribution
         if list(sc.probability_by_str.keys()) != keys or any(sc.probability_by_int[k] != p[k] for k in range(N)):
             fails.append((tag + ":deprecated-view-differs", {}))
+    if not probabilistic:
+        # the deprecated aliases first: reading a view must not change what the other views say afterwards
+        dep_i = np.asarray(sc.probability_by_int, dtype=float).copy()
+        dep_s = dict(sc.probability_by_str)
+        rf0 = np.asarray(sc.relative_frequency_by_int, dtype=float)
+        tot_d, tot_r = dep_i.sum(), rf0.sum()
+        if dep_i.shape != rf0.shape or list(dep_s.keys()) != keys or any(dep_s[keys[k]] != dep_i[k] for k in range(N)) or \
+                ((tot_d > 0 or tot_r > 0) and not np.allclose(dep_i * (tot_r or 1), rf0 * (tot_d or 1), rtol=1e-12, atol=0)):
+            fails.append((tag + ":deprecated-view-differs", {"deprecated": dep_i.tolist()[:8], "relative_frequency": rf0.tolist()[:8]}))
     rf = np.asarray(sc.relative_frequency_by_int)
     if rf.shape != (N,):
         fails.append((tag + ":frequency-shape", {"shape": rf.shape}))
@@ -230,8 +239,39 @@ def judge_direct(case):
     return "ok", fails, {"n": n, "views": 1, "raised": False}
 
 
+def judge_frequencies(case):
+    """RelativeFrequencySubcircuit built directly with given frequencies (as a front end that only has the
+    distribution does: fractions summing to one, or counts): both views must describe exactly these numbers."""
+    from jaqalpaq.core.result import RelativeFrequencySubcircuit
+    from jaqalpaq.core.algorithm.walkers import Trace
+
+    n = case["n"]
+    vec = [float(x) for x in case["vec"]]
+    tr = Trace([0], [1], used_qubits=list(range(n)))
+    fails = []
+    o = lib.outcome(lambda: RelativeFrequencySubcircuit(tr, 0, relative_frequencies=list(vec)))
+    if o[0] != "ok":
+        return "skipped:cannot-construct", [], {"n": n, "views": 0}
+    sc = o[1]
+    keys = [refexec.bits(k, n) for k in range(2 ** n)]
+    d = dict(sc.relative_frequency_by_str)
+    bi = [float(x) for x in sc.relative_frequency_by_int]
+    if bi != vec:
+        fails.append(("frequencies:int-view-differs-from-input", {"input": vec[:8], "got": bi[:8]}))
+    elif list(d.keys()) != keys or any(float(d[keys[k]]) != vec[k] for k in range(2 ** n)):
+        fails.append(("frequencies:string-view-differs-from-int-view", {"input": vec[:8], "got": [d.get(k) for k in keys[:8]]}))
+    dep = dict(sc.probability_by_str)
+    if list(dep.keys()) != keys or any(float(dep[keys[k]]) != vec[k] for k in range(2 ** n)) or [float(x) for x in sc.probability_by_int] != vec:
+        fails.append(("frequencies:deprecated-view-differs", {"input": vec[:8]}))
+    if [float(x) for x in sc.relative_frequency_by_int] != vec:
+        fails.append(("frequencies:changed-by-reading-views", {"input": vec[:8]}))
+    return "ok", fails, {"n": n, "views": 1}
+
+
 def judge(case):
     m = case["mode"]
+    if m == "frequencies":
+        return judge_frequencies(case)
     if m == "emulator":
         return judge_emulator(case)
     if m == "outputs":
@@ -335,6 +375,11 @@ def shard(ctx):
             else:
                 v = v + eps
             process(ctx, {"mode": "direct", "n": n, "vec": v.tolist()})
+            # frequencies given as fractions (sum one) or as counts
+            fr = rng.dirichlet(np.ones(2 ** n)) if hasattr(rng, "dirichlet") else np.random.default_rng(rng.randrange(1 << 30)).dirichlet(np.ones(2 ** n))
+            if rng.random() < 0.4:
+                fr = np.floor(fr * 50)
+            process(ctx, {"mode": "frequencies", "n": n, "vec": [float(x) for x in fr]})
         if i <= 2:
             rec.sample({"note": "see rule; sample emulator case", "i": i})
     rec.sample({"mode": "outputs", "n": 3, "values": list(range(8)), "as_str": [refexec.bits(v, 3) for v in range(8)]}, force=True)
